@@ -38,8 +38,8 @@ var specDeleteValues = map[string]string{
 
 type devModel struct {
 	fn      *ssa.Function
-	target  ssa.Value            // the Find result
-	kindVal map[int64]string     // deviationType constant → keyword
+	target  ssa.Value        // the Find result
+	kindVal map[int64]string // deviationType constant → keyword
 	kinds   map[string]int64
 	find    *ssa.Call
 }
